@@ -33,7 +33,7 @@ package augment
 
 //@ func (f *finder) ident
 //@   requires finderOK(f) && f.tok != const("go/token.EOF")
-//@   assigns f.pos, f.tok, f.prev, f.offset, lastTok, f.errors, elems(f.errors), scanLeft
+//@   assigns f.pos, f.tok, f.prev, f.offset, lastTok, f.errors, elems(f.errors), scanLeft, tokAfterDots, sameLineAfterDots
 //@   ensures finderOK(f)
 //@   ensures [C08] consumes-a-token: tokLeft(f) < old(tokLeft(f))
 //@   ensures f.errors.arr == old(f.errors.arr) || fresh(f.errors.arr)
@@ -44,8 +44,11 @@ package augment
 //@   requires finderOK(f) && f.tok != const("go/token.EOF")
 //@   at call (*pgo/augment.finder).append assert [C01,C04,C08] an-array-length-ellipsis-is-not-an-elision: old(lastTok) != const("go/token.LBRACK")
 //@   at call (*pgo/augment.finder).append assert [C04,C13] elision-unless-variadic: !(f.tok == const("go/token.IDENT") && fileLine(f.file, pos) == fileLine(f.file, f.pos))
+//@   at call (*pgo/augment.finder).next#0 set tokAfterDots = f.tok
+//@   at call (*pgo/augment.finder).next#0 set sameLineAfterDots = fileLine(f.file, pos) == fileLine(f.file, f.pos)
+//@   ensures [C04,C13] an-ellipsis-that-is-neither-an-array-length-nor-a-variadic-marker-is-an-elision: old(lastTok) != const("go/token.LBRACK") && !(tokAfterDots == const("go/token.IDENT") && sameLineAfterDots) ==> len(f.augs) == old(len(f.augs)) + 1
 //@   at call (*pgo/augment.finder).next#1 assert [C04,C13] variadic-is-an-identifier-on-the-same-line: f.tok == const("go/token.IDENT") && fileLine(f.file, pos) == fileLine(f.file, f.pos)
-//@   assigns f.pos, f.tok, f.prev, f.offset, lastTok, f.errors, elems(f.errors), f.augs, elems(f.augs), scanLeft
+//@   assigns f.pos, f.tok, f.prev, f.offset, lastTok, f.errors, elems(f.errors), f.augs, elems(f.augs), scanLeft, tokAfterDots, sameLineAfterDots
 //@   ensures finderOK(f)
 //@   ensures [C08] consumes-a-token: tokLeft(f) < old(tokLeft(f))
 //@   ensures f.errors.arr == old(f.errors.arr) || fresh(f.errors.arr)
@@ -53,7 +56,7 @@ package augment
 
 //@ func (f *finder) process
 //@   requires finderOK(f) && f.tok != const("go/token.EOF")
-//@   assigns f.pos, f.tok, f.prev, f.offset, lastTok, f.errors, elems(f.errors), f.augs, elems(f.augs), scanLeft
+//@   assigns f.pos, f.tok, f.prev, f.offset, lastTok, f.errors, elems(f.errors), f.augs, elems(f.augs), scanLeft, tokAfterDots, sameLineAfterDots
 //@   ensures finderOK(f)
 //@   ensures [C08] consumes-a-token: tokLeft(f) < old(tokLeft(f))
 //@   ensures f.errors.arr == old(f.errors.arr) || fresh(f.errors.arr)
@@ -62,7 +65,7 @@ package augment
 
 //@ func (f *finder) function
 //@   requires finderOK(f) && f.tok != const("go/token.EOF")
-//@   assigns f.pos, f.tok, f.prev, f.offset, lastTok, f.errors, elems(f.errors), f.augs, elems(f.augs), scanLeft
+//@   assigns f.pos, f.tok, f.prev, f.offset, lastTok, f.errors, elems(f.errors), f.augs, elems(f.augs), scanLeft, tokAfterDots, sameLineAfterDots
 //@   ensures finderOK(f)
 //@   ensures [C08] consumes-a-token: tokLeft(f) < old(tokLeft(f))
 //@   ensures f.errors.arr == old(f.errors.arr) || fresh(f.errors.arr)
@@ -78,7 +81,7 @@ package augment
 // A parameter/result list: scanned up to its closing parenthesis or the end of the input.
 //@ func (f *finder) fieldList
 //@   requires finderOK(f)
-//@   assigns f.pos, f.tok, f.prev, f.offset, lastTok, f.errors, elems(f.errors), f.augs, elems(f.augs), scanLeft
+//@   assigns f.pos, f.tok, f.prev, f.offset, lastTok, f.errors, elems(f.errors), f.augs, elems(f.augs), scanLeft, tokAfterDots, sameLineAfterDots
 //@   ensures finderOK(f)
 //@   ensures [C08] never-goes-back: tokLeft(f) <= old(tokLeft(f))
 //@   ensures [C08] consumes-a-token: old(f.tok) != const("go/token.EOF") ==> tokLeft(f) < old(tokLeft(f))
@@ -100,7 +103,7 @@ package augment
 // A top-level func declaration: optional receiver list, name, parameters, results.
 //@ func (f *finder) funcDecl
 //@   requires finderOK(f)
-//@   assigns f.pos, f.tok, f.prev, f.offset, lastTok, f.errors, elems(f.errors), f.augs, elems(f.augs), scanLeft
+//@   assigns f.pos, f.tok, f.prev, f.offset, lastTok, f.errors, elems(f.errors), f.augs, elems(f.augs), scanLeft, tokAfterDots, sameLineAfterDots
 //@   ensures finderOK(f)
 //@   ensures [C08] never-goes-back: tokLeft(f) <= old(tokLeft(f))
 //@   ensures f.errors.arr == old(f.errors.arr) || fresh(f.errors.arr)
@@ -113,14 +116,14 @@ package augment
 
 //@ func (f *finder) pkg
 //@   requires finderOK(f)
-//@   assigns f.pos, f.tok, f.prev, f.offset, lastTok, f.errors, elems(f.errors), f.augs, elems(f.augs), scanLeft
+//@   assigns f.pos, f.tok, f.prev, f.offset, lastTok, f.errors, elems(f.errors), f.augs, elems(f.augs), scanLeft, tokAfterDots, sameLineAfterDots
 //@   ensures finderOK(f)
 //@   ensures f.errors.arr == old(f.errors.arr) || fresh(f.errors.arr)
 //@   ensures f.augs.arr == old(f.augs.arr) || fresh(f.augs.arr)
 
 //@ func (f *finder) imports
 //@   requires finderOK(f)
-//@   assigns f.pos, f.tok, f.prev, f.offset, lastTok, f.errors, elems(f.errors), scanLeft
+//@   assigns f.pos, f.tok, f.prev, f.offset, lastTok, f.errors, elems(f.errors), scanLeft, tokAfterDots, sameLineAfterDots
 //@   ensures finderOK(f)
 //@   ensures f.errors.arr == old(f.errors.arr) || fresh(f.errors.arr)
 //@   loop 0
@@ -134,7 +137,7 @@ package augment
 
 //@ func (f *finder) topLevelDecl
 //@   requires finderOK(f)
-//@   assigns f.pos, f.tok, f.prev, f.offset, lastTok, f.errors, elems(f.errors), f.augs, elems(f.augs), scanLeft
+//@   assigns f.pos, f.tok, f.prev, f.offset, lastTok, f.errors, elems(f.errors), f.augs, elems(f.augs), scanLeft, tokAfterDots, sameLineAfterDots
 //@   ensures finderOK(f)
 //@   ensures f.errors.arr == old(f.errors.arr) || fresh(f.errors.arr)
 //@   ensures f.augs.arr == old(f.augs.arr) || fresh(f.augs.arr)
@@ -142,7 +145,7 @@ package augment
 // The whole scan terminates: the main loop runs until EOF and every step consumes a token.
 //@ func (f *finder) find() (augs)
 //@   requires finderOK(f)
-//@   assigns f.pos, f.tok, f.prev, f.offset, lastTok, f.errors, elems(f.errors), f.augs, elems(f.augs), scanLeft
+//@   assigns f.pos, f.tok, f.prev, f.offset, lastTok, f.errors, elems(f.errors), f.augs, elems(f.augs), scanLeft, tokAfterDots, sameLineAfterDots
 //@   loop 0
 //@     invariant finderOK(f)
 //@     invariant f.errors.arr == old(f.errors.arr) || fresh(f.errors.arr)
